@@ -343,6 +343,10 @@ def plan_read(w: World, op: dict) -> Plan:
         found, obj = resolve_data(w, op["src"])
         if not found:
             return Plan(SKIP)
+        try:
+            mt.rule(obj)
+        except TypeError:
+            return Plan(EXCLUDED, why="unhashable data in a tree without id callback")
 
         def call():
             return rt.find_all(obj)
